@@ -10,6 +10,8 @@ skeleton recorded on the confirmed tree (fixtures/skeleton.json, written by tool
 
   * it calls a function or class that is defined in the repository now but was not defined then (a new helper), or
   * it did not exist, or
+  * REWRITTEN (5) or more of its statements are new or rewritten (statements compared as a multiset of fingerprints - simple
+    statements whole, compound ones by their header; deleted statements do not count, so a dropped guard stays a small edit), or
   * a repository function it calls (transitively, depth 3) changed shape in this sense.
 
 (A second criterion - more loops / comprehensions / lambdas / try blocks than the function had - was tried and dropped: measured on
@@ -27,6 +29,7 @@ import os
 
 HERE = os.path.dirname(os.path.abspath(__file__))
 SKELETON = os.path.join(HERE, "fixtures", "skeleton.json")
+REWRITTEN = 5        # this many new / rewritten statements (headers of compound statements count once) make a function "another shape"
 COUNTED = (ast.For, ast.While, ast.ListComp, ast.SetComp, ast.DictComp, ast.GeneratorExp, ast.Lambda, ast.Try, ast.Yield, ast.YieldFrom)
 
 
@@ -43,6 +46,36 @@ def _own(fnode):
             stack.append(c)
 
 
+def _headers(node):
+    """one fingerprint per statement: simple statements whole, compound statements by their header (test / target and iterable / items)"""
+    out = []
+    for st in ast.walk(node):
+        if not isinstance(st, ast.stmt) or st is node:
+            continue
+        if isinstance(st, (ast.FunctionDef, ast.AsyncFunctionDef, ast.ClassDef)):
+            out.append("def " + st.name)
+        elif isinstance(st, ast.If):
+            out.append("if " + ast.dump(st.test))
+        elif isinstance(st, ast.While):
+            out.append("while " + ast.dump(st.test))
+        elif isinstance(st, (ast.For, ast.AsyncFor)):
+            out.append("for " + ast.dump(st.target) + " in " + ast.dump(st.iter))
+        elif isinstance(st, (ast.With, ast.AsyncWith)):
+            out.append("with " + " ".join(ast.dump(i) for i in st.items))
+        elif isinstance(st, ast.Try):
+            out.append("try")
+        elif isinstance(st, ast.Expr) and isinstance(st.value, ast.Constant) and isinstance(st.value.value, str):
+            continue            # docstrings / comments-as-strings
+        else:
+            out.append(ast.dump(st))
+    return out
+
+
+def statements_of(func):
+    import hashlib
+    return sorted(hashlib.sha1(h.encode()).hexdigest()[:12] for h in _headers(func.node))
+
+
 def skeleton_of(func):
     counts = {}
     called = set()
@@ -56,7 +89,7 @@ def skeleton_of(func):
             called.add(n.id)
         elif isinstance(n, ast.Attribute):
             called.add(n.attr)
-    return {"counts": counts, "names": sorted(called)}
+    return {"counts": counts, "names": sorted(called), "stmts": statements_of(func)}
 
 
 def defined_names(prog):
@@ -120,6 +153,10 @@ class Gate:
         new_helpers = sorted(n for n in cur["names"] if n in self.now_defined and n not in old_defined)
         if new_helpers:
             return "%s uses %s, defined in the repository after the rules were confirmed" % (f.name, ", ".join(new_helpers[:3]))
+        import collections
+        added = sum((collections.Counter(cur["stmts"]) - collections.Counter(ref.get("stmts", cur["stmts"]))).values())
+        if added >= REWRITTEN:
+            return "%d statements of %s are new or rewritten since the rules were confirmed" % (added, f.name)
         if depth > 0:
             for n in cur["names"]:
                 for q2 in self.by_name.get(n, ()):
